@@ -105,3 +105,17 @@ def _p_explicit_redeclaration():
 
 probes.register('C02', Probe('explicit attribute re-declared (SELF\\sup.attr) with a specialised type', _p_explicit_redeclaration,
                              masks=dict(schema=['explicit_redeclaration'])))
+
+
+def _p_select_two_lists():
+    # two members of one SELECT whose underlying types are aggregates of the same kind: the generated STEPread/STEPwrite
+    # switch on the underlying base type carries the same case label twice
+    s = M.Schema('pr_c02tl', [M.TypeDef('li', 'simple', base=M.AGG('LIST', M.INT(), 0, 3)),
+                              M.TypeDef('lr', 'simple', base=M.AGG('LIST', M.REAL(), 0, 3)),
+                              M.TypeDef('sel1', 'select', members=['li', 'lr'])],
+                 [M.Entity('e', attrs=[M.Attr('a0', M.NAMED('sel1'), True)])])
+    return s, []
+
+
+probes.register('C02', Probe('select with two members that are aggregates of the same kind', _p_select_two_lists,
+                             masks=dict(schema=['select_two_same_kind_aggregates'])))
